@@ -390,7 +390,10 @@ Lemma v4_lt_top a : a < W32 -> v4 a < IM.TOP.
 Proof. intros H. unfold v4. rewrite V4ANY_eq, <- TOP_big. unfold W32 in *. lia. Qed.
 
 Lemma v4_is_v4 a : a < W32 -> IM.isIPv4 (v4 a) = true.
-Proof. intros H. apply IP.isIPv4_range. unfold v4, IM.V4NO. rewrite V4ANY_eq. unfold W32 in *. lia. Qed.
+Proof.
+  intros H. unfold IM.isIPv4, v4. rewrite V4ANY_eq. apply N.eqb_eq. change (2 ^ 32) with W32.
+  rewrite N.div_add_l by discriminate. rewrite (N.div_small a W32 H). reflexivity.
+Qed.
 
 Lemma tok_plain_not_global : IM.parse_global tok_plain = None. Proof. reflexivity. Qed.
 
@@ -405,42 +408,32 @@ Qed.
 (* FactoryParse() stores for a well-formed value exactly the triple C42 reasons about *)
 Lemma ip_spec_cv t : iptok_ok t ->
   IP.tok_parsed (ip_spec t) /\ IP.tok_vals (ip_spec t) = map IP.cv_val (cv_of t) /\
-  Forall IP.cv_ok (cv_of t) /\ Forall IP.v4_only (cv_of t).
+  Forall IP.cv_ok (cv_of t).
 Proof.
   destruct t as [w|a|a n|a b|a b n]; cbn [iptok_ok ip_spec cv_of map]; intros H.
   - destruct (IM.parse_global w) as [g|] eqn:E; [|contradiction].
     split; [left; cbn [fst]; rewrite E; discriminate|]. unfold IP.tok_vals. cbn [fst]. rewrite E. auto.
   - split; [right; eexists; reflexivity|]. unfold IP.tok_vals. cbn [fst snd]. rewrite tok_plain_not_global.
     split; [cbn [IP.cv_val]; rewrite IP.pmask_0; reflexivity|].
-    pose proof (v4_lt_top a H). split; (constructor; [|constructor]).
-    + cbn [IP.cv_ok]. rewrite N.pow_0_r, N.mod_1_r. lia.
-    + unfold IP.v4_only. cbn [IP.cv_lo IP.cv_hi]. rewrite N.pow_0_r, N.add_0_r. split; apply v4_is_v4, H.
+    pose proof (v4_lt_top a H). constructor; [|constructor].
+    cbn [IP.cv_ok]. rewrite N.pow_0_r, N.mod_1_r. lia.
   - destruct H as (Ha & Hn & Hal). destruct (cidr_val a n Ha Hn Hal) as [Em Ev]. rewrite Em, Ev.
     split; [right; eexists; reflexivity|]. unfold IP.tok_vals. cbn [fst snd]. rewrite tok_plain_not_global.
     unfold IM.applyMask. rewrite N.land_0_l. split; [reflexivity|].
-    destruct (pow_le_32 (32 - n) ltac:(lia)) as [HP _].
-    pose proof (aligned_bound a (2 ^ (32 - n)) W32 HP Hal (w32_aligned (32 - n) ltac:(lia)) Ha) as Hb.
-    split; (constructor; [|constructor]).
-    + cbn [IP.cv_ok]. split; [lia|]. split; [apply v4_lt_top, Ha|]. apply v4_aligned; [lia| exact Hal].
-    + unfold IP.v4_only. cbn [IP.cv_lo IP.cv_hi]. split; [apply v4_is_v4, Ha|].
-      replace (v4 a + (2 ^ (32 - n) - 1)) with (v4 (a + (2 ^ (32 - n) - 1))) by (unfold v4; lia). apply v4_is_v4. lia.
+    constructor; [|constructor].
+    cbn [IP.cv_ok]. split; [lia|]. split; [apply v4_lt_top, Ha|]. apply v4_aligned; [lia| exact Hal].
   - destruct H as (Hab & Hb).
     split; [right; eexists; reflexivity|]. unfold IP.tok_vals. cbn [fst snd]. rewrite tok_plain_not_global.
     split; [cbn [IP.cv_val]; rewrite IP.pmask_0; reflexivity|].
-    pose proof (v4_lt_top b Hb). split; (constructor; [|constructor]).
-    + cbn [IP.cv_ok]. rewrite N.pow_0_r, !N.mod_1_r. unfold v4 in *. repeat split; try lia.
-    + unfold IP.v4_only. cbn [IP.cv_lo IP.cv_hi]. rewrite N.pow_0_r, N.add_0_r. split; apply v4_is_v4; lia.
+    pose proof (v4_lt_top b Hb). constructor; [|constructor].
+    cbn [IP.cv_ok]. rewrite N.pow_0_r, !N.mod_1_r. unfold v4 in *. repeat split; try lia.
   - destruct H as (Hab & Hb & Hn & Hala & Halb). assert (Ha : a < W32) by lia.
     destruct (cidr_val a n Ha Hn Hala) as [Em Eva]. destruct (cidr_val b n Hb Hn Halb) as [_ Evb]. rewrite Em, Eva, Evb.
     split; [right; eexists; reflexivity|]. unfold IP.tok_vals. cbn [fst snd]. rewrite tok_plain_not_global.
     split; [reflexivity|].
-    destruct (pow_le_32 (32 - n) ltac:(lia)) as [HP _].
-    pose proof (aligned_bound b (2 ^ (32 - n)) W32 HP Halb (w32_aligned (32 - n) ltac:(lia)) Hb) as Hbb.
-    split; (constructor; [|constructor]).
-    + cbn [IP.cv_ok]. pose proof (v4_lt_top b Hb). pose proof (v4_aligned a (32 - n) ltac:(lia) Hala).
-      pose proof (v4_aligned b (32 - n) ltac:(lia) Halb). unfold v4 in *. repeat split; try lia.
-    + unfold IP.v4_only. cbn [IP.cv_lo IP.cv_hi]. split; [apply v4_is_v4, Ha|].
-      replace (v4 b + (2 ^ (32 - n) - 1)) with (v4 (b + (2 ^ (32 - n) - 1))) by (unfold v4; lia). apply v4_is_v4. lia.
+    constructor; [|constructor].
+    cbn [IP.cv_ok]. pose proof (v4_lt_top b Hb). pose proof (v4_aligned a (32 - n) ltac:(lia) Hala).
+    pose proof (v4_aligned b (32 - n) ltac:(lia) Halb). unfold v4 in *. repeat split; try lia.
 Qed.
 
 Lemma ip_in_cv x t : iptok_ok t ->
@@ -473,16 +466,15 @@ Definition cvs (ips : list iptok) : list IP.cval := flat_map cv_of ips.
 
 Lemma ips_facts ips : Forall iptok_ok ips ->
   Forall IP.tok_parsed (map ip_spec ips) /\ IP.vals_of (map ip_spec ips) = map IP.cv_val (cvs ips) /\
-  Forall IP.cv_ok (cvs ips) /\ Forall IP.v4_only (cvs ips) /\
+  Forall IP.cv_ok (cvs ips) /\
   (IP.any4 (map ip_spec ips) = true <-> exists w g6, In (IWord w) ips /\ IM.parse_global w = Some (true, g6)).
 Proof.
   induction ips as [|t ips IH]; intros H.
   - cbn. repeat split; try constructor; [discriminate| intros (w & g6 & [] & _)].
-  - inversion H as [|? ? Ht Hr]; subst. destruct (IH Hr) as (I1 & I2 & I3 & I4 & I5).
-    destruct (ip_spec_cv t Ht) as (S1 & S2 & S3 & S4).
+  - inversion H as [|? ? Ht Hr]; subst. destruct (IH Hr) as (I1 & I2 & I3 & I5).
+    destruct (ip_spec_cv t Ht) as (S1 & S2 & S3).
     split; [constructor; assumption|]. split.
     { unfold IP.vals_of, cvs in *. cbn [map flat_map]. rewrite map_app, <- S2, <- I2. reflexivity. }
-    split; [unfold cvs; cbn [flat_map]; apply Forall_app; auto|].
     split; [unfold cvs; cbn [flat_map]; apply Forall_app; auto|].
     unfold IP.any4 in *. cbn [map existsb]. rewrite Bool.orb_true_iff, I5. split.
     + intros [Hh|(w & g6 & Hin & E)]; [|exists w, g6; split; [right; exact Hin| exact E]].
@@ -498,9 +490,8 @@ Definition ip_inv (ips : list iptok) (f4 f6 : bool) (t : tree IM.ipval) : Prop :
 Lemma ip_parse_inv ips f4 f6 t n : Forall iptok_ok ips ->
   IM.acl_parse_from false false (@Leaf _) 0%Z (map ip_spec ips) = IM.POk f4 f6 t n -> ip_inv ips f4 f6 t.
 Proof.
-  intros H E. destruct (ips_facts ips H) as (I1 & I2 & I3 & I4 & _).
-  pose proof (IP.v4_lists_quirk_free (cvs ips) 0 I3 I4) as Q.
-  destruct (IP.acl_parse_ok _ _ I1 I2 I3 (IP.quirk_free_vals_of _ _ Q)) as (t' & n' & E' & St).
+  intros H E. destruct (ips_facts ips H) as (I1 & I2 & I3 & _).
+  destruct (IP.acl_parse_ok _ _ I1 I2 I3) as (t' & n' & E' & St).
   unfold IM.acl_parse in E'. rewrite E in E'. inversion E'; subst. split; [reflexivity|]. split; [reflexivity| exact St].
 Qed.
 
@@ -509,9 +500,8 @@ Lemma ip_lookup ips f4 f6 t x : Forall iptok_ok ips -> ip_inv ips f4 f6 t -> x <
   ip_inv ips f4 f6 (fst (IM.acl_match f4 f6 t (v4 x))) /\
   (snd (IM.acl_match f4 f6 t (v4 x)) = true <-> exists tk, In tk ips /\ ip_in x tk).
 Proof.
-  intros H (E4 & E6 & St) Hx. destruct (ips_facts ips H) as (I1 & I2 & I3 & I4 & I5).
-  pose proof (IP.v4_lists_quirk_free (cvs ips) (v4 x) I3 I4) as Q.
-  destruct (IP.acl_match_ok (cvs ips) t f4 f6 (v4 x) I3 St (v4_lt_top x Hx) Q) as [St' Hm].
+  intros H (E4 & E6 & St) Hx. destruct (ips_facts ips H) as (I1 & I2 & I3 & I5).
+  destruct (IP.acl_match_ok (cvs ips) t f4 f6 (v4 x) St (v4_lt_top x Hx)) as [St' Hm].
   split; [split; [exact E4|]; split; [exact E6| exact St']|].
   rewrite Hm. unfold IP.acl_spec. rewrite (v4_is_v4 x Hx). rewrite Forall_forall in H. split.
   - intros [[F _]|[[F _]|[[_ F]|(c & Hc & Hin)]]]; try discriminate.
